@@ -243,6 +243,98 @@ theorem oldToNew_none {α} (segs : List (Segment α)) (s d : Nat)
     cases hal
   rw [getAddr_fillFrom_notMem _ _ _ _ _ hm, getAddr_emptyTables]
 
+/-! ### closed form of the old→new tables -/
+
+theorem rank_cons_succ (a : Bool) (as : List Bool) (d : Nat) :
+    rank (a :: as) (d + 1) = (if a then 1 else 0) + rank as d := by
+  cases a <;> simp [rank, List.take_succ_cons] <;> omega
+
+theorem liveIdsFrom_getElem?_rank (al : List Bool) (k d : Nat) (h : isAlive al d = true) :
+    (liveIdsFrom k al)[rank al d]? = some (k + d) := by
+  induction al generalizing k d with
+  | nil => simp [isAlive_nil] at h
+  | cons a as ih =>
+    cases d with
+    | zero =>
+      rw [isAlive_cons_zero] at h
+      subst h
+      simp [liveIdsFrom, rank]
+    | succ d' =>
+      rw [isAlive_cons_succ] at h
+      rw [rank_cons_succ]
+      cases a
+      · simp only [liveIdsFrom, Bool.false_eq_true, if_false, Nat.zero_add]
+        rw [ih (k + 1) d' h]; congr 1; omega
+      · simp only [liveIdsFrom, if_true]
+        rw [Nat.add_comm 1, List.getElem?_cons_succ, ih (k + 1) d' h]; congr 1; omega
+
+theorem newToOldFrom_getElem? {α} (segs : List (Segment α)) (i s d : Nat) (seg : Segment α)
+    (hs : segs[s]? = some seg) (h : isAlive seg.alive d = true) :
+    (newToOldFrom i segs)[liveBase segs s + rank seg.alive d]? = some (i + s, d) := by
+  induction segs generalizing i s with
+  | nil => simp at hs
+  | cons x rest ih =>
+    cases s with
+    | zero =>
+      simp at hs
+      subst hs
+      have h1 := liveIdsFrom_getElem?_rank x.alive 0 d h
+      have hlt : rank x.alive d < ((liveIds x.alive).map fun d => (i, d)).length := by
+        have := (List.getElem?_eq_some_iff.1 h1).1
+        simpa [liveIds] using this
+      simp only [newToOldFrom, liveBase, List.take_zero, List.map_nil, List.sum_nil, Nat.zero_add]
+      rw [List.getElem?_append_left hlt, List.getElem?_map]
+      simp only [liveIds]
+      rw [h1]
+      simp
+    | succ s' =>
+      simp at hs
+      have hb : liveBase (x :: rest) (s' + 1) = x.alive.count true + liveBase rest s' := by
+        simp [liveBase, List.take_succ_cons]
+      have hlen : ((liveIds x.alive).map fun d => (i, d)).length = x.alive.count true := by
+        simp [liveIds, liveIdsFrom_length]
+      simp only [newToOldFrom]
+      rw [hb, List.getElem?_append_right (by rw [hlen]; omega), hlen]
+      have e : x.alive.count true + liveBase rest s' + rank seg.alive d - x.alive.count true
+          = liveBase rest s' + rank seg.alive d := by omega
+      rw [e, ih (i + 1) s' hs]
+      congr 2; omega
+
+/-- closed form: a live doc `d` of source `s` gets the number of live docs before it -/
+theorem oldToNew_closed {α} (segs : List (Segment α)) (s d : Nat) (seg : Segment α)
+    (hs : segs[s]? = some seg) :
+    getAddr (oldToNew segs) s d =
+      if isAlive seg.alive d then some (liveBase segs s + rank seg.alive d) else none := by
+  by_cases h : isAlive seg.alive d = true
+  · rw [if_pos h]
+    apply (oldToNew_inverse segs s d _).2
+    have := newToOldFrom_getElem? segs 0 s d seg hs h
+    simpa [newToOld] using this
+  · rw [if_neg h]
+    apply oldToNew_none
+    intro seg' hs'
+    rw [hs] at hs'
+    cases hs'
+    simpa using h
+
+/-- the postings of one source, remapped through its filled table, are exactly its live
+postings (renumbered by rank) shifted by the number of live docs of the earlier sources -/
+theorem remapPostings_closed {α} (segs : List (Segment α)) (s : Nat) (seg : Segment α)
+    (hs : segs[s]? = some seg) (ps : List Posting) :
+    remapPostings (oldToNew segs) s ps = shift (liveBase segs s) (livePostings seg.alive ps) := by
+  induction ps with
+  | nil => rfl
+  | cons p rest ih =>
+    simp only [remapPostings, livePostings, shift, List.filterMap_cons] at ih ⊢
+    rw [oldToNew_closed segs s p.doc seg hs]
+    by_cases h : isAlive seg.alive p.doc = true
+    · simp only [h, if_true, List.map_cons]
+      rw [ih]
+      congr 2
+      omega
+    · simp only [h]
+      exact ih
+
 /-! ### updater -/
 
 theorem endMergeWith_discard_epoch (b : Bool) (st : State) (r : Running) (h : r.epoch ≠ st.epoch) :
